@@ -1083,6 +1083,12 @@ class WorkerThread(Thread):
                         )
 
                     del result, exception
+                elif not self.loop.is_closed():
+                    # The caller gave up before the job was picked up; make this worker
+                    # available again instead of leaving it blocked on its queue forever
+                    self.loop.call_soon_threadsafe(
+                        self._report_result, future, None, None
+                    )
 
                 self.queue.task_done()
                 del item, context, func, args, future, cancel_scope
